@@ -320,3 +320,11 @@ Fixpoint go_snm_at {A S R} (l : list A) (idxs : list Z) (k : list A -> res S R) 
   | [] => k []
   | i :: r => go_index l i (fun x => go_snm_at l r (fun xs => k (x :: xs)))
   end.
+
+(* m[[2]byte{a, b}] = v on a map with two-byte keys kept as an association list *)
+Fixpoint go_map_set2 {V} (k : N * N) (v : V) (m : list ((N * N) * V)) : list ((N * N) * V) :=
+  match m with
+  | [] => [(k, v)]
+  | (k', v') :: r =>
+    if (N.eqb (fst k) (fst k') && N.eqb (snd k) (snd k'))%bool then (k, v) :: r else (k', v') :: go_map_set2 k v r
+  end.
